@@ -116,6 +116,22 @@ CLAIMED["C03"] = dict(
          "x {heap, tight arena, default arena with live neighbour, scope, stack+allocator, stack without allocator}.",
     ref="6 C03")
 
+CLAIMED["C04"] = dict(
+    technique="Lean 4 theorems over buffer-level models with checked memmove/memcpy, the GPString capacity+1 invariant, and a proved UTF-8 self-synchronisation lemma for strstr-based set membership",
+    text="Theorems: every fixed-buffer gp_bytes_* edit (append, insert, replace_range, slice, repeat, trim) writes exactly the "
+         "byte-sequence result, reports its length and stays inside a destination that has room; GPString invariant "
+         "(length <= capacity, storage = capacity+1) holds after gp_str_new, is preserved by gp_str_reserve on every storage "
+         "kind and by every edit, so gp_cstr always terminates in place without changing content; copy/append/insert/repeat/"
+         "slice/replace-first/replace-all (vs a left-to-right non-rescanning spec)/ASCII trim/join equal the list operations; "
+         "for valid UTF-8: strstr-membership of one code point in a set = membership in the set's code points (self-"
+         "synchronisation proved from Unicode Table 3-7), hence UTF-8 trim (left loop, backwards right loop), code point set "
+         "search and split (maximal runs of non-separators) equal their code-point-level specifications.",
+    note="Modelled, not verified: glibc memmem/strstr/strspn/strchr as list functions; growth keeps the first `length` "
+         "bytes (arena realloc keeps more - unobservable); split's 256-entry batching and the substring allocation (the model "
+         "returns the substrings; batches are exercised by the correspondence with up to 700 parts); gp_bytes_replace_all on a "
+         "fixed buffer has a model and correspondence but its theorem is the GPString version. gp_str_to_valid is C06.",
+    ref="6 C04")
+
 PENDING = {}
 
 def main():
